@@ -82,6 +82,26 @@ def replay(p):
             return True, f'su2_to_angle raises {type(e).__name__}: {e} at angles ({al},{be},{ga})'
         err = min(float(np.abs(back - U).max()), float(np.abs(back + U).max()))
         return (err > TOL), f'angle_to_su2(su2_to_angle(U)) != +-U for U=U(alpha={al:.6g}, beta={be:.6g}, gamma={ga:.6g}): error {err:.3g}'
+    if what in ('so3_rt_exact', 'su2_rt_exact'):
+        X = H.from_payload_cx(p, 'X')
+        if what == 'so3_rt_exact':
+            X = X.real
+            if np.abs(X @ X.T - np.eye(3)).max() > 1e-9:
+                return False, 'model matrix is not orthogonal (algebraic model values were approximated)'
+            try:
+                back = L.angle_to_so3(*L.so3_to_angle(X))
+            except Exception as e:
+                return True, f'so3_to_angle raises {type(e).__name__}: {e} on R={np.round(X, 6).tolist()}'
+            err = float(np.abs(back - X).max())
+            return (err > 1e-7), f'angle_to_so3(so3_to_angle(R)) != R for R={np.round(X, 6).tolist()}: error {err:.3g}'
+        if np.abs(X @ X.conj().T - np.eye(2)).max() > 1e-9:
+            return False, 'model matrix is not unitary'
+        try:
+            back = L.angle_to_su2(*L.su2_to_angle(X))
+        except Exception as e:
+            return True, f'su2_to_angle raises {type(e).__name__}: {e}'
+        err = min(float(np.abs(back - X).max()), float(np.abs(back + X).max()))
+        return (err > 1e-7), f'angle_to_su2(su2_to_angle(U)) != +-U for U={np.round(X, 6).tolist()}: error {err:.3g}'
     if what == 'batch':
         angs = np.array(p['angles'], dtype=float)
         R = L.angle_to_so3(angs[:, 0], angs[:, 1], angs[:, 2])
@@ -244,6 +264,16 @@ def run(chk):
             for pi, path in enumerate(paths):
                 pre = regime_pre + path.pc + path.facts + [c for k, c in path.side if k in ('sqrt', 'div', 'arccos')]
                 rp = ('c15', lambda m, path=path, kind=kind, fixed=fixed: angle_payload(m, ang, path.ctx, kind + '_rt', fixed))
+                if path.status == 'return':
+                    # replay on the exact matrix the solver saw (entries such as -1, 0 exactly), not on one rebuilt from float angles
+                    def rp_exact(m, path=path, kind=kind):
+                        X_ = path.value[0]
+                        env = {k_: float(v_) for k_, v_ in m.items()}
+                        for n_ in ir.variables([t for e in H.elems(X_) for t in (S.as_sc(e).re, S.as_sc(e).im)]):
+                            env.setdefault(n_.val, 1.0 if n_.val.startswith('cos[') else 0.0)
+                        v = H.eval_array(X_, env)
+                        return {'what': kind + '_rt_exact', 'X': np.stack([np.real(v), np.imag(v)], axis=-1).tolist()}
+                    rp = ('c15', rp_exact)
                 if path.status != 'return':
                     chk.add(f'{kind}_to_angle round trip raises {type(path.value).__name__} [{regime}] path {pi}', path.pc + path.facts, ir.FALSE, key=f'{kind}_to_angle raises [{regime}]', replay=rp)
                     continue
